@@ -9,7 +9,7 @@ for patch in $list; do
   rm -rf "$scratch/repo"; mkdir -p "$scratch/repo"
   (cd /repo && git ls-files -z | grep -zv '/testdata/' | xargs -0 cp --parents -t "$scratch/repo" 2>/dev/null)
   if ! (cd "$scratch/repo" && git init -q . 2>/dev/null && git apply "$patch" 2>/dev/null); then echo "== $(basename $patch): does not apply"; continue; fi
-  out=$(timeout 900 "$here/bin/kinlint" -property "$prop" -tier quick -dir "$scratch/repo" -verif "$here" -no-evidence 2>&1)
+  out=$(timeout 900 "${KINLINT_BIN:-$here/bin/kinlint}" -property "$prop" -tier quick -dir "$scratch/repo" -verif "$here" -no-evidence 2>&1)
   echo "== $(basename $patch): $(echo "$out" | grep -c '^VIOLATION') violation line(s)"
   echo "$out" | grep -E "VIOLATED|UNDECIDED" | sed 's/^ *[A-Z]* *//' | cut -c1-230 | head -6
 done
